@@ -40,7 +40,7 @@ def run(ctx):
         raise verif.MachineryError("TLC wrote no vec.ndjson in %s" % gen["dir"])
     nscripts = sum(1 for _ in open(vec))
     binary = finish_build(build)
-    out = ctx.go_test("cmd/restic", "^TestVerif_C55$", timeout=3000, env={"VERIF_VECTORS": vec, "VERIF_RESTIC_BIN": binary})
+    out = ctx.go_test("cmd/restic", "^TestVerif_C55$", timeout=5400, env={"VERIF_VECTORS": vec, "VERIF_RESTIC_BIN": binary})
     n, bad, lines = ctx.check_records("Fn_BackupStatus", os.path.join(out, "recs.ndjson"))
     for i in bad[:200]:
         r = json.loads(lines[i - 1])
